@@ -3,12 +3,15 @@
 import glob, json
 rows = []
 n_hist = 0
+hist_ids = []
 for d in sorted(glob.glob('/verif/seeded/S*')):
     m = json.load(open(d + '/meta.json'))
     caught = [k for k, v in m['checks'].items() if v['verdict'] == 'caught']
     missed = [k for k, v in m['checks'].items() if v['verdict'] != 'caught']
     note = ' — **after strengthening** (see meta.json history)' if m.get('history') else ''
     n_hist += bool(m.get('history'))
+    if m.get('history'):
+        hist_ids.append(m['id'])
     rows.append(f"| {m['id']} | {m['property']} | {m['needs_to_manifest']} | {', '.join(caught)}{(' (' + ', '.join(missed) + ' not)') if missed else ''}{note} |")
 tbl = "| id | property | what it needs to manifest | caught by |\n|---|---|---|---|\n" + "\n".join(rows)
 p = '/verif/DESIGN.md'
@@ -16,14 +19,15 @@ s = open(p).read()
 i = s.index("| id | property | what it needs to manifest | caught by |")
 s = s[:i] + tbl + f'''
 
-All {len(rows)} stored sub-agent changes are caught by the check of the property they target; {n_hist} of them only
-after the generator / parameter sets were strengthened (C11, C12, C07 after a first miss; C16 twice and C20
-when the change description showed — and, for S2-C16, a run of the committed checks confirmed — that the
-existing generator could not reach the trigger). Each meta.json records the demonstration (fails with the
-change, passes without), the repository's own 374 tests passing with the change, and the verdict of every
-check that was run against it. Waves 3 and 4 asked further agents for a change on a *less obvious* clause;
-four of them (C01, C06, C12, C14) independently produced the very same edit as the earlier agent for that
-property and were not stored twice.
+All {len(rows)} stored sub-agent changes are caught by the check of the property they target; {n_hist} of them
+only after the generator / parameter sets were strengthened ({", ".join(hist_ids)}) — either after a
+first miss, or because the change description showed (and a run on a patched scratch copy confirmed) that
+the existing generator could not reach the trigger; each meta.json `history` says which. Each meta.json
+also records the demonstration (fails with the change, passes without), the repository's own 374 tests
+passing with the change, the verdict of every check that was run against it, and a final `recheck` of
+the target property's check against the patch on the last tree (`tools/seeded_recheck.py`). Waves 3-5
+asked further agents for a change on a *less obvious* clause; four of them (C01, C06, C12, C14)
+independently produced the very same edit as the earlier agent for that property and were not stored twice.
 '''
 open(p, 'w').write(s)
 print(len(rows), 'rows,', n_hist, 'with history')
